@@ -1,3 +1,4 @@
+import os
 from vf.core import Property, Harness, Unit
 
 SVC_BL = Unit('svc_bl', shim='shims/svc_bl.cpp',
@@ -6,39 +7,58 @@ SVC_BL = Unit('svc_bl', shim='shims/svc_bl.cpp',
                           'CFG2 [2^64-0x100, 2^64-0x20) page 32; CFG3 [0x1004,0x1ffc) (not page aligned) page 16')
 
 
+PAGE = {0: 16, 1: 8, 2: 32, 3: 16}
+
+
 def cases(tier):
+    """OPS: one hex digit per step (first step = most significant): 1..4 control point write of 1 / 9 / 17 / XLEN bytes,
+    5/6 data write of DLEN / DLEN2 bytes, 7 progress, 8 data indication delivery, 9 control point notification delivery.
+    From construction only a control point write changes anything, so histories start with one."""
     cs = []
-    def add(cfg, k, x, d, d2):
-        cs.append({'CFG': cfg, 'K': k, 'XLEN': x, 'DLEN': d, 'DLEN2': d2})
+    def add(cfg, ops, x=2, d=9, d2=3, off=-1):
+        cs.append({'CFG': cfg, 'K': len(ops), 'OPS': int(ops, 16), 'XLEN': x, 'DLEN': d, 'DLEN2': d2, 'OFF': off})
     if tier == 'quick':
-        for x, d, d2 in [(0, 20, 3), (2, 16, 1), (8, 20, 12), (10, 17, 15), (16, 9, 7), (18, 20, 20), (20, 4, 0)]:
-            add(0, 3, x, d, d2)
-        add(1, 3, 5, 20, 8)
-        add(2, 3, 9, 20, 13)
-        add(3, 3, 3, 20, 12)
+        # single control point write, every length class incl. odd lengths, all configurations
+        for x in (0, 2, 8, 10, 16, 18, 20):
+            add(0, '4', x=x)
+        for cfg in (0, 1, 2, 3):
+            for ops in ('1', '2', '3'):
+                add(cfg, ops)
+        # two step histories (page 8, region [0x4000,0x4040) and page 16)
+        add(1, '25', d=9); add(1, '26', d2=20); add(1, '23'); add(0, '25', d=20)
     else:
         for cfg in (0, 1, 2, 3):
-            for x, d, d2 in [(0, 20, 3), (2, 16, 1), (8, 20, 12), (10, 17, 15), (16, 9, 7), (18, 20, 20), (20, 4, 0),
-                             (3, 19, 2), (4, 18, 5), (5, 14, 6), (6, 13, 10), (7, 11, 8)]:
-                add(cfg, 3, x, d, d2)
-            for x, d, d2 in [(2, 20, 12), (16, 16, 3), (10, 8, 20)]:
-                add(cfg, 4, x, d, d2)
+            for x in range(0, 21):
+                add(cfg, '4', x=x)
+            for ops in ('1', '2', '3'):
+                add(cfg, ops)
+            for ops in ('21', '22', '23', '24', '31', '32', '33'):
+                add(cfg, ops, x=5)
+            add(cfg, '25', d=20); add(cfg, '25', d=1); add(cfg, '26', d2=0); add(cfg, '26', d2=PAGE[cfg] + 1)
+        # three step histories, page 8
+        for ops in ('251', '255', '256', '257', '235', '236', '253', '385', '389'):
+            add(1, ops, x=5, d=9, d2=20)
+    maxk = os.environ.get('VF_C39_MAXK')          # debugging aid: restrict the history length
+    if maxk:
+        cs = [c for c in cs if c['K'] <= int(maxk)]
     return cs
 
 
 PROPERTY = Property(
     'C39',
-    [Harness('c39_bl', SVC_BL, 'harness/c39_bl.c', cases, unwind=34, timeout=900,
+    [Harness('c39_bl', SVC_BL, 'harness/c39_bl.c', cases, unwind=34, timeout=3000,
+             unwindset=['vf_bl_write_data.%d:5' % i for i in range(4)],
              description='real bootloader controller under symbolic histories of control point writes, data writes, progress / response / '
                          'data-indication deliveries; the flash handler is the recording environment that asserts every touched range',
-             bounds='histories of K=3 (quick) / 3 and 4 (thorough) operations from construction; each operation symbolic among: control point write of '
-                    '1, 9, 17 or XLEN bytes (symbolic opcode and parameters, exact-size objects), data write of DLEN or DLEN2 bytes (<= 20), progress, '
-                    'data indication delivery, control point notification delivery; 4 configurations (quick: mainly CFG0)')],
+             bounds='histories of up to 2 (quick) / 3 (thorough) operations from construction; the shape of every step is a case parameter: control point write of '
+                    '1, 9, 17 or XLEN (0..20) bytes (symbolic opcode and parameters, exact-size objects), data write of DLEN or DLEN2 bytes (<= 20, all bytes symbolic), progress, '
+                    'data indication delivery, control point notification delivery; quick: single writes (lengths 0,1,2,8,9,10,16,17,18,20) for CFG0 and lengths 1,9,17 for all configurations, four 2-step histories; '
+                    'thorough: single writes of every length 0..20 for the 4 configurations, 2-step histories (control point write followed by control point or data write) for the 4 configurations, nine 3-step histories for CFG1 (page 8)')],
     functions=['bootloader::details::controller::bootloader_write_control_point', 'controller::bootloader_write_data', 'controller::find_next_buffer',
                'controller::bootloader_read_control_point', 'controller::bootloader_read_data', 'controller::bootloader_progress_data', 'controller::read_address',
                'details::flash_buffer::set_start_address / write_data / flush / free', 'white_list<memory_region<...>...>::acceptable'],
     bounds='4 configurations (2 regions/page 16, 1 region/page 8, region at the end of the address space/page 32, unaligned region/page 16); '
-           'histories up to 4 operations; value sizes 0..20; 64 bit addresses',
+           'histories up to 3 operations; value sizes 0..20; 64 bit addresses',
     assumptions=['the user handler signals end_flash() (progress) at most once per start_flash() call',
                  'data indications / control point notifications are delivered only when the controller requested them; the response of an accepted control point write is read immediately after the write',
                  'memory content and the checksum functions are uninterpreted functions (mem(addr), crc(old, byte), crc(addr), crc(addr, size)); memory not flashed in the history keeps its content',
@@ -50,7 +70,7 @@ PROPERTY = Property(
                 'written values are exact-size objects so any read beyond them fails a pointer check inside the real code; a ghost model of the flash session '
                 '(start address, received bytes, checksum chain over uninterpreted crc) is compared with the pages handed to start_flash and with the checksums announced '
                 'in Start Flash / Flush / Get CRC responses and progress notifications',
-    outside=['histories longer than 4 operations; write sizes above 20 bytes', 'the GATT plumbing around the controller (see C01/C06/C10)',
+    outside=['histories longer than 3 operations (2 in the quick tier) and 3-step histories other than the nine listed shapes for CFG1: the solver time of a data write that crosses pages grows steeply with the history length (one 3-step case with 20 byte data and page size 16 did not finish in 265 CPU seconds); write sizes above 20 bytes', 'the GATT plumbing around the controller (see C01/C06/C10)',
              'liveness (that all received data is eventually flashed without a Flush)', 'what run(address) starts (Start procedure is not range checked by the statement)',
              'page sizes / region lists other than the four configurations; 32 bit targets'],
 )
